@@ -177,11 +177,20 @@ class FuncView:
 _FLIP = {ast.NotIn: ast.In, ast.IsNot: ast.Is, ast.NotEq: ast.Eq}
 
 
+def _bool_valued(e) -> bool:
+    if isinstance(e, ast.Call) and isinstance(e.func, ast.Name) and e.func.id in ("isinstance", "issubclass", "callable", "hasattr", "bool"):
+        return True
+    if isinstance(e, ast.UnaryOp) and isinstance(e.op, ast.Not):
+        return True
+    return isinstance(e, ast.Compare) and all(isinstance(o, (ast.Is, ast.IsNot, ast.In, ast.NotIn)) for o in e.ops)
+
+
 def positive_form(test, outcome: str) -> Tuple[str, str]:
     """Normalise a (test, outcome) pair: ``a not in b`` taken True is reported as
     (``a in b``, "F"); same for ``is not`` and ``!=``."""
     if isinstance(test, ast.Compare) and len(test.ops) == 1 and isinstance(test.comparators[0], ast.Constant) \
-            and isinstance(test.comparators[0].value, bool) and isinstance(test.ops[0], (ast.Is, ast.Eq, ast.IsNot, ast.NotEq)):
+            and isinstance(test.comparators[0].value, bool) and isinstance(test.ops[0], (ast.Is, ast.Eq, ast.IsNot, ast.NotEq)) and _bool_valued(test.left):
+        # `isinstance(x, T) is False` == `not isinstance(x, T)`; only for operands that are certainly bool (for any other, `x is False` is not `not x`)
         same = isinstance(test.ops[0], (ast.Is, ast.Eq)) == test.comparators[0].value
         return positive_form(test.left, outcome if same else ("F" if outcome == "T" else "T"))
     if isinstance(test, ast.Compare) and len(test.ops) == 1 and type(test.ops[0]) in _FLIP:
